@@ -7,7 +7,7 @@ PROP = "C09"
 def run(tier, seed, t0):
     return _sess.run_session_check(
         PROP, tier, seed, t0,
-        families=[("chanclose", 500, 8000)],
+        families=[("chanclose", 500, 8000), ("mixed", 150, 2000)],
         mc_jobs=[("MC_Conn_chclose_q.cfg", None, None), ("MC_Conn_chclose_bug.cfg", "ChanCloseScoped", None),
                  ("MC_Conn_close.cfg", None, "thorough")],
         rule="2-3 open channels in seeded states (idle, call in flight with the reply withheld, content half received, "
@@ -16,7 +16,9 @@ def run(tier, seed, t0):
              "re-opening the same id explicitly and using it, consumer drains, clean connection close. non-trivial = "
              "the closed channel had a consumer, a call in flight or half-received content; distinct = distinct step lists",
         nontrivial=lambda s: any(x.get("do") == "consume" or x.get("async") for x in s["steps"]),
-        assumptions=_sess.COMMON_ASSUMPTIONS)
+        assumptions=_sess.COMMON_ASSUMPTIONS + [
+            "plus 'mixed' sessions: seeded interleavings of everything at once (RPCs, nowait calls, multi-frame publishes, "
+            "consumers, listeners, withheld replies, server events, transport stalls, read and write segmentation)"])
 
 
 replay = _sess.replay
